@@ -196,6 +196,14 @@ Lemma main_fault_is_error : forall S D sc f,
   class S D sc (PLeaf f) = CErr /\ class S D sc (PCall (PLeaf f)) = CErr.
 Proof. intros S D sc f [H|H]; unfold class; simpl; rewrite H; split; reflexivity. Qed.
 
+(* ---------- deep data ---------- *)
+
+Lemma deep_data_bounded_survives : forall S D n frame, n * frame <= D -> fault_raw S D (FDeepData n frame) = RVal.
+Proof. intros S D n frame H. cbn [fault_raw]. destruct (D <? n * frame) eqn:E; [lia|reflexivity]. Qed.
+
+Lemma deep_data_unbounded_fatal : forall S D frame, 1 <= frame -> fault_raw S D (FDeepData (D + 1) frame) = RFatal.
+Proof. intros S D frame H. cbn [fault_raw]. destruct (D <? (D + 1) * frame) eqn:E; [reflexivity|nia]. Qed.
+
 (* ---------- demand ---------- *)
 
 Lemma demanded_fault_is_error : forall D sc g d i f,
